@@ -106,3 +106,38 @@ func genB() *rapid.Generator[Case] {
 
 func TestPropA(t *testing.T) { prop.Rapid(t, genA()) }
 func TestPropB(t *testing.T) { prop.Rapid(t, genB()) }
+
+// TestEnumA: every sequence of up to VERIF_C11_ENUM_LEN container operations over a small alphabet, on each
+// kind of container (constructed, zero value, nil).
+func TestEnumA(t *testing.T) {
+	maxLen := h.EnvInt("VERIF_C11_ENUM_LEN", 5)
+	al := []OpA{
+		{K: "adderr", Errs: []int{1}}, {K: "adderr", Errs: []int{0}},
+		{K: "addlist", NilList: true}, {K: "addlist", Errs: []int{}}, {K: "addlist", Errs: []int{0, 0}},
+		{K: "addlist", Errs: []int{0, 2, 3, 4}}, {K: "addlist", Errs: []int{5, 6}}, {K: "addlist", Errs: []int{7, 0}},
+		{K: "merge"}, {K: "merge", On: 1}, {K: "reuse"}, {K: "adderr", Errs: []int{8}, On: 1},
+	}
+	var n int64
+	for _, ctor := range []string{"new", "zero", "nil"} {
+		var rec func(ops []OpA)
+		rec = func(ops []OpA) {
+			if len(ops) > 0 {
+				n++
+				c := Case{A: &CaseA{Ctor: ctor, Ops: append([]OpA{}, ops...)}}
+				ev.R().EvalEnum(nil, true)
+				if v := ev.Guard(func() *ev.Violation { return CheckCase(c) }); v != nil {
+					ev.R().Fail(ID, c, v)
+					t.Fatalf("VIOLATION %s", ID)
+				}
+			}
+			if len(ops) == maxLen {
+				return
+			}
+			for _, op := range al {
+				rec(append(ops, op))
+			}
+		}
+		rec(nil)
+	}
+	ev.R().Sub(ev.SubRun{Name: "container-histories", Bound: "every sequence of 1..N operations (N = VERIF_C11_ENUM_LEN) over a 12-operation alphabet x {constructed, zero-value, nil} container", Cases: n, Exhaustive: true})
+}
